@@ -72,6 +72,8 @@ ATOM_TEMPLATES_1 = [  # one selector of tree kind
     "int($0) % 2 == 0", "int($0) > 4", "str($0) != '7'", "len(str($0)) >= 2", "str($0).startswith('a')",
     "$0.startswith('1')", "$0 == '5'", "str($0)[1] == 'b'", "10 // int($0) >= 2", "not (str($0) == 'a')",
     "'1' in str($0)", "len(str($0)) >= 1", "str($0) != ''", "str($0)[::-1] != 'ba'", "$0.endswith('0')", "int($0) < 50",
+    # python expressions (not top-level comparisons) that raise for some matches only
+    "0 <= int($0) <= 50", "int($0) in range(3, 40)", "str($0)[1].isdigit()", "bool(10 // int($0))", "not int($0) > 5",
 ]
 ATOM_TEMPLATES_2 = ["int($0) <= int($1)", "str($0) != str($1)", "len(str($0)) <= len(str($1)) + 1", "str($1) in str($0)"]
 CMP_TEMPLATES = [("int($0)", ">", "3"), ("str($0)", "==", "'a'"), ("$0", "!=", "'0'"), ("int($0) % 3", "<=", "1"),
